@@ -1,6 +1,462 @@
-import AGH.Spec.Migrate
-namespace AGH.C13
+/-
+C13 — config upgrade: never panics, an error leaves the file alone, a produced
+document is stamped with the requested version, a current file is left alone,
+top-level settings a step does not concern are preserved.
 
-theorem C13_placeholder : lastSchemaVersion = 29 := rfl
+Property theorems only; helper lemmas are in AGH/Lemmas/Migrate*.lean.  All
+statements quantify over every document, every oracle (library result), every
+current and target version.  `DocLike` is the type guarantee of
+`yaml.Unmarshal(body, &yobj{})`: no document (parse error), a nil map (null
+document) or a map.
+
+Not proved here (checked by the spec monitor on the implementation's outputs
+and by the model/implementation correspondence only): independence of the
+result from partial runs (`pathWhy`) for all documents, and preservation of
+unconcerned settings below the top level (`frameWhy`).  The one-run/partial-run
+clause is FALSE for documents holding an integral float, see
+`C13_counterexample_path_float`.
+-/
+import AGH.Lemmas.MigrateRun
+import AGH.Model.MigrateSig
+import AGH.Gen.C13Facts
+namespace AGH.C13
+open AGH
+
+/-- A null document is treated like an empty one. -/
+theorem migrateMem_null (o : Oracles) (target : Nat) :
+    migrateMem o (some .null) target = migrateMem o (some (.obj [])) target := rfl
+
+/-- `Migrate` before the encoding does not panic. -/
+theorem C13_total_mem (o : Oracles) (parsed : Option YVal) (target : Nat) (h : DocLike parsed) :
+    ∀ p s, migrateMem o parsed target ≠ .panic p s := by
+  have key : ∀ es p s, migrateMem o (some (.obj es)) target ≠ .panic p s := by
+    intro es p s
+    rcases migrateMem_obj o es target with ⟨⟨k, hk⟩, _⟩ | ⟨hs, _, _⟩ | ⟨cur, _, hlt, h29, hu⟩
+    · rw [hk]; simp
+    · rw [hs]; simp
+    · rw [hu]
+      have := upgrade_ok o (target - cur) cur (by omega) es
+      cases hup : upgrade o (target - cur) cur (.obj es) with
+      | error fs =>
+        obtain ⟨f, s'⟩ := fs
+        rw [hup] at this
+        cases f <;> simp [upgradeOutcome]
+        exact this.elim
+      | ok d => simp [upgradeOutcome]
+  intro p s
+  cases parsed with
+  | none => simp [migrateMem]
+  | some d =>
+    cases d <;> simp [DocLike] at h
+    · rw [migrateMem_null]; exact key [] p s
+    · exact key _ p s
+
+/-- **No panic.**  For every document `yaml.Unmarshal` can produce, every target
+and every library result, `Migrate` does not panic. -/
+theorem C13_total (o : Oracles) (parsed : Option YVal) (target : Nat) (h : DocLike parsed) :
+    ∀ p s, migrate o parsed target ≠ .panic p s := by
+  intro p s
+  unfold migrate
+  cases hm : migrateMem o parsed target with
+  | up d => dsimp only; split <;> simp
+  | panic p' s' => exact absurd hm (C13_total_mem o parsed target h p' s')
+  | err k s' => simp
+  | same => simp
+  | oracle => simp
+
+/-- The in-memory document `Migrate` encodes: a map, stamped, top-level frame. -/
+theorem migrateMem_up (o : Oracles) (es : List (Key × YVal)) (target : Nat) (d : YVal)
+    (h : migrateMem o (some (.obj es)) target = .up d) :
+    ∃ cur, versionOf (.obj es) = some cur ∧ cur < target ∧ target ≤ 29 ∧ IsObj d ∧
+      getK d kSchemaVersion = some (.int target) ∧
+      ∀ k, k ∉ topKeys (touchedRange (target - cur) cur) → getK d k = lookup k es := by
+  rcases migrateMem_obj o es target with ⟨⟨k, hk⟩, _⟩ | ⟨hs, _, _⟩ | ⟨cur, hv, hlt, h29, hu⟩
+  · rw [hk] at h; simp at h
+  · rw [hs] at h; simp at h
+  · rw [hu] at h
+    have hup := upgrade_ok o (target - cur) cur (by omega) es
+    cases hr : upgrade o (target - cur) cur (.obj es) with
+    | error fs => obtain ⟨f, s⟩ := fs; rw [hr] at h; cases f <;> simp [upgradeOutcome] at h
+    | ok d' =>
+      rw [hr] at h hup
+      simp [upgradeOutcome] at h; subst h
+      obtain ⟨ho, hs, hf⟩ := hup
+      refine ⟨cur, hv, hlt, h29, ho, ?_, hf⟩
+      have := hs (by omega)
+      rw [this]; congr 2; omega
+
+/-- **Stamped.**  A document `Migrate` produces carries the requested version. -/
+theorem C13_stamped (o : Oracles) (parsed : Option YVal) (target : Nat) (d : YVal) (hd : DocLike parsed)
+    (h : migrate o parsed target = .up d) : getK d kSchemaVersion = some (.int target) := by
+  have key : ∀ es, migrate o (some (.obj es)) target = .up d → getK d kSchemaVersion = some (.int target) := by
+    intro es h
+    unfold migrate at h
+    cases hm : migrateMem o (some (.obj es)) target with
+    | up d0 =>
+      rw [hm] at h; dsimp only at h
+      obtain ⟨cur, _, _, _, ho, hs, _⟩ := migrateMem_up o es target d0 hm
+      obtain ⟨es0, rfl⟩ := ho.elim
+      cases hr : reparse o (.obj es0) with
+      | none => rw [hr] at h; simp at h
+      | some d1 =>
+        rw [hr] at h; simp at h; subst h
+        obtain ⟨es1, rfl, he⟩ := reparse_obj o es0 d1 hr
+        simp only [getK] at hs ⊢
+        rw [reparseEntries_lookup o _ es0 es1 he, hs]
+        simp [reparse_int]
+    | err k s => rw [hm] at h; simp at h
+    | same => rw [hm] at h; simp at h
+    | panic p s => rw [hm] at h; simp at h
+    | oracle => rw [hm] at h; simp at h
+  cases parsed with
+  | none => simp [migrate, migrateMem] at h
+  | some d0 =>
+    cases d0 <;> simp [DocLike] at hd
+    · exact key [] (by simpa [migrate, migrateMem_null] using h)
+    · exact key _ h
+
+/-- **Settings a step does not concern are preserved** (top level): every
+top-level key outside the keys named by the steps that ran has, in the produced
+document, the value it had (as YAML writes it back). -/
+theorem C13_frame_top (o : Oracles) (es : List (Key × YVal)) (target cur : Nat) (d : YVal)
+    (hv : versionOf (.obj es) = some cur) (h : migrate o (some (.obj es)) target = .up d) :
+    ∀ k, k ∉ topKeys (touchedRange (target - cur) cur) → getK d k = (lookup k es).bind (reparse o) := by
+  intro k hk
+  unfold migrate at h
+  cases hm : migrateMem o (some (.obj es)) target with
+  | up d0 =>
+    rw [hm] at h; dsimp only at h
+    obtain ⟨cur', hv', _, _, ho, _, hf⟩ := migrateMem_up o es target d0 hm
+    have : cur' = cur := by rw [hv] at hv'; simpa using hv'.symm
+    subst this
+    obtain ⟨es0, rfl⟩ := ho.elim
+    cases hr : reparse o (.obj es0) with
+    | none => rw [hr] at h; simp at h
+    | some d1 =>
+      rw [hr] at h; simp at h; subst h
+      obtain ⟨es1, rfl, he⟩ := reparse_obj o es0 d1 hr
+      have := hf k hk
+      simp only [getK] at this ⊢
+      rw [reparseEntries_lookup o _ es0 es1 he, this]
+  | err k s => rw [hm] at h; simp at h
+  | same => rw [hm] at h; simp at h
+  | panic p s => rw [hm] at h; simp at h
+  | oracle => rw [hm] at h; simp at h
+
+/-- **Upgrading an already current file changes nothing.** -/
+theorem C13_current_noop (o : Oracles) (es : List (Key × YVal)) (target : Nat)
+    (hv : versionOf (.obj es) = some target) (h29 : target ≤ 29) :
+    migrate o (some (.obj es)) target = .same := by
+  rcases migrateMem_obj o es target with ⟨_, hn | ⟨cur, hc, hgt⟩⟩ | ⟨hs, _, _⟩ | ⟨cur, hc, hlt, _, _⟩
+  · rw [hv] at hn; simp at hn
+  · rw [hv] at hc; simp at hc; subst hc; omega
+  · simp [migrate, hs]
+  · rw [hv] at hc; simp at hc; subst hc; omega
+
+/-- **It either fails with an error or produces a document**: a real upgrade
+(`cur < target ≤ 29`) never reports "nothing to do". -/
+theorem C13_error_or_upgraded (o : Oracles) (es : List (Key × YVal)) (target cur : Nat)
+    (hv : versionOf (.obj es) = some cur) (hlt : cur < target) :
+    migrate o (some (.obj es)) target ≠ .same := by
+  intro h
+  unfold migrate at h
+  rcases migrateMem_obj o es target with ⟨⟨k, hk⟩, _⟩ | ⟨hs, hv', _⟩ | ⟨cur', _, _, _, hu⟩
+  · rw [hk] at h; simp at h
+  · rw [hv] at hv'; simp at hv'; omega
+  · rw [hu] at h
+    cases hr : upgrade o (target - cur') cur' (.obj es) with
+    | error fs => obtain ⟨f, s⟩ := fs; rw [hr] at h; cases f <;> simp [upgradeOutcome] at h
+    | ok d => rw [hr] at h; simp [upgradeOutcome] at h; split at h <;> simp at h
+
+/-- **An error leaves the file content unchanged** (and `upgraded = false` means
+the returned body is the input), for any YAML codec. -/
+theorem C13_wrapper {β : Type} (o : Oracles) (decode : β → Option YVal) (encode : YVal → β)
+    (body : β) (target : Nat) (r : Ret β) (h : migrateBody o decode encode body target = some r) :
+    (r.err.isSome → r.body = body ∧ r.upgraded = false) ∧ (r.upgraded = false → r.body = body) := by
+  unfold migrateBody at h
+  cases hm : migrateMem o (decode body) target <;> rw [hm] at h <;> simp at h <;> subst h <;> simp
+
+/-- The step an error is attributed to is one of the steps that were to run. -/
+theorem C13_error_step (o : Oracles) (es : List (Key × YVal)) (target : Nat) (k : ErrK) (s : Nat)
+    (h : migrate o (some (.obj es)) target = .err k s) :
+    s = 0 ∨ ∃ cur, versionOf (.obj es) = some cur ∧ cur < s ∧ s ≤ target := by
+  unfold migrate at h
+  rcases migrateMem_obj o es target with ⟨⟨k', hk⟩, _⟩ | ⟨hs, _, _⟩ | ⟨cur, hv, hlt, h29, hu⟩
+  · rw [hk] at h; simp at h; exact Or.inl h.2.symm
+  · rw [hs] at h; simp at h
+  · right
+    rw [hu] at h
+    have hup := upgrade_ok o (target - cur) cur (by omega) es
+    cases hr : upgrade o (target - cur) cur (.obj es) with
+    | error fs =>
+      obtain ⟨f, s'⟩ := fs
+      rw [hr] at h hup
+      cases f with
+      | err k' =>
+        simp [upgradeOutcome] at h
+        simp only [UpgradeOK] at hup
+        exact ⟨cur, hv, by omega, by omega⟩
+      | panic p => simp [upgradeOutcome] at h
+      | oracle => simp [upgradeOutcome] at h
+    | ok d => rw [hr] at h; simp [upgradeOutcome] at h; split at h <;> simp at h
+
+/-- A produced document is a map carrying the requested stamp. -/
+theorem migrate_up_obj (o : Oracles) (parsed : Option YVal) (t : Nat) (d : YVal) (hd : DocLike parsed)
+    (h : migrate o parsed t = .up d) : ∃ es, d = .obj es ∧ lookup kSchemaVersion es = some (.int t) := by
+  have hs := C13_stamped o parsed t d hd h
+  cases d <;> simp [getK] at hs
+  exact ⟨_, rfl, hs⟩
+
+/-- **No panic in partial runs either**: upgrading to `k` and then, from the
+re-read file, to `target` does not panic at any stage. -/
+theorem C13_total_split (o : Oracles) (parsed : Option YVal) (target k : Nat) (h : DocLike parsed) :
+    ∀ p s, (splitRun o parsed target k).2 ≠ .panic p s := by
+  intro p s
+  unfold splitRun
+  cases h1 : migrate o parsed k with
+  | same => exact C13_total o parsed target h p s
+  | up d1 =>
+    obtain ⟨es1, rfl, _⟩ := migrate_up_obj o parsed k d1 h h1
+    have h2 := C13_total o (some (.obj es1)) target trivial p s
+    dsimp only
+    cases h2' : migrate o (some (.obj es1)) target <;> simp_all
+  | err k' s' => simp
+  | panic p' s' => exact absurd h1 (C13_total o parsed k h p' s')
+  | oracle => simp
+
+/-! ### The model meets the spec (core clauses) -/
+
+theorem firstSome_none {α β} (f : α → Option β) (xs : List α) (h : ∀ x ∈ xs, f x = none) :
+    firstSome f xs = none := by
+  induction xs with
+  | nil => rfl
+  | cons x xs ih =>
+    simp only [firstSome, h x (by simp)]
+    exact ih (fun y hy => h y (by simp [hy]))
+
+theorem toRes_panicWhy (r : Outcome) (h : ∀ p s, r ≠ .panic p s) : (r.toRes).panicWhy = none := by
+  cases r <;> simp [Outcome.toRes, Res.panicWhy]
+  exact absurd rfl (h _ _)
+
+theorem toRes_wrapperOK (r : Outcome) : (r.toRes).wrapperOK = true := by
+  cases r <;> simp [Outcome.toRes, Res.wrapperOK]
+
+theorem stampedWith_of_lookup (es : List (Key × YVal)) (n : Nat)
+    (h : lookup kSchemaVersion es = some (.int n)) : stampedWith n (some (.obj es)) = true := by
+  simp [stampedWith, lookupE_eq_lookup, stampKey, h]
+
+theorem migrate_stampOK (o : Oracles) (parsed : Option YVal) (t : Nat) (hd : DocLike parsed) :
+    ((migrate o parsed t).toRes).stampOK t = true := by
+  cases h : migrate o parsed t <;> simp [Outcome.toRes, Res.stampOK]
+  obtain ⟨es, rfl, hs⟩ := migrate_up_obj o parsed t _ hd h
+  exact stampedWith_of_lookup es t hs
+
+theorem migrate_same_version (o : Oracles) (es : List (Key × YVal)) (t : Nat)
+    (h : migrate o (some (.obj es)) t = .same) : versionOf (.obj es) = some t := by
+  unfold migrate at h
+  rcases migrateMem_obj o es t with ⟨⟨k, hk⟩, _⟩ | ⟨_, hv, _⟩ | ⟨cur, _, _, _, hu⟩
+  · rw [hk] at h; simp at h
+  · exact hv
+  · rw [hu] at h
+    cases hr : upgrade o (t - cur) cur (.obj es) with
+    | error fs => obtain ⟨f, s⟩ := fs; rw [hr] at h; cases f <;> simp [upgradeOutcome] at h
+    | ok d => rw [hr] at h; simp [upgradeOutcome] at h; split at h <;> simp at h
+
+theorem splitRun_stampOK (o : Oracles) (parsed : Option YVal) (target k : Nat) (hd : DocLike parsed) :
+    (((splitRun o parsed target k).2).toRes).stampOK target = true := by
+  unfold splitRun
+  cases h1 : migrate o parsed k with
+  | same => exact migrate_stampOK o parsed target hd
+  | up d1 =>
+    obtain ⟨es1, rfl, hs1⟩ := migrate_up_obj o parsed k d1 hd h1
+    dsimp only
+    cases h2 : migrate o (some (.obj es1)) target with
+    | same =>
+      have hv := migrate_same_version o es1 target h2
+      simp [versionOf, lookupE_eq_lookup, stampKey, hs1] at hv
+      subst hv
+      simp [Outcome.toRes, Res.stampOK, stampedWith_of_lookup es1 k hs1]
+    | up d2 =>
+      have := migrate_stampOK o (some (.obj es1)) target trivial
+      rw [h2] at this; simpa using this
+    | err k' s' => simp [Outcome.toRes, Res.stampOK]
+    | panic p' s' => simp [Outcome.toRes, Res.stampOK]
+    | oracle => simp [Outcome.toRes, Res.stampOK]
+  | err k' s' => simp [Outcome.toRes, Res.stampOK]
+  | panic p' s' => simp [Outcome.toRes, Res.stampOK]
+  | oracle => simp [Outcome.toRes, Res.stampOK]
+
+theorem migrate_null (o : Oracles) (t : Nat) : migrate o (some .null) t = migrate o (some (.obj [])) t := by
+  simp [migrate, migrateMem_null]
+
+/-- **The model satisfies the spec's core clauses on every case**: in the model's
+own observation of one run, the single-step run and every partial-run pair, nothing
+panics, errors leave the file unchanged, every produced document carries the
+requested stamp, a current file is left alone and a real upgrade fails or produces
+a document.  (The partial-run and the nested preservation clauses of `specWhy` are
+not covered, see the header.) -/
+theorem C13_model_meets_spec (o : Oracles) (c : Case) (hd : DocLike c.parsed) :
+    coreWhy c (modelObs o c) = none := by
+  have hpan : firstSome Res.panicWhy (allRes (modelObs o c)) = none := by
+    apply firstSome_none
+    intro x hx
+    simp only [allRes, modelObs, modelOutcomes, List.mem_cons, List.mem_append, List.mem_map] at hx
+    rcases hx with rfl | hx | ⟨a, ⟨b, ⟨k, _, rfl⟩, rfl⟩, rfl⟩
+    · exact toRes_panicWhy _ (C13_total o c.parsed c.target hd)
+    · cases hst : c.stepTarget with
+      | none => simp [hst] at hx
+      | some t =>
+        simp [hst] at hx; subst hx
+        exact toRes_panicWhy _ (C13_total o c.parsed t hd)
+    · exact toRes_panicWhy _ (C13_total_split o c.parsed c.target k hd)
+  have hwrap : (allRes (modelObs o c)).all Res.wrapperOK = true := by
+    rw [List.all_eq_true]
+    intro x hx
+    simp only [allRes, modelObs, modelOutcomes, List.mem_cons, List.mem_append, List.mem_map] at hx
+    rcases hx with rfl | hx | ⟨a, ⟨b, _, rfl⟩, rfl⟩
+    · exact toRes_wrapperOK _
+    · cases hst : c.stepTarget with
+      | none => simp [hst] at hx
+      | some t => simp [hst] at hx; subst hx; exact toRes_wrapperOK _
+    · exact toRes_wrapperOK _
+  have hstamp1 : (modelObs o c).one.stampOK c.target = true := migrate_stampOK o c.parsed c.target hd
+  have hstamp2 : (modelObs o c).splits.all (fun s => s.2.stampOK c.target) = true := by
+    rw [List.all_eq_true]
+    intro x hx
+    simp only [modelObs, modelOutcomes, List.mem_map] at hx
+    obtain ⟨b, ⟨k, _, rfl⟩, rfl⟩ := hx
+    exact splitRun_stampOK o c.parsed c.target k hd
+  have hstamp : stampsOK c (modelObs o c) = true := by
+    unfold stampsOK
+    rw [hstamp1, hstamp2]
+    cases hst : c.stepTarget with
+    | none => simp
+    | some t => simp [modelObs, modelOutcomes, hst]; exact migrate_stampOK o c.parsed t hd
+  unfold coreWhy
+  simp only [hpan, hwrap, hstamp, Bool.not_true, Bool.false_eq_true, if_false]
+  cases hcv : caseVersion c with
+  | none => rfl
+  | some dc =>
+    obtain ⟨din0, cur⟩ := dc
+    unfold caseVersion at hcv
+    cases hp : c.parsed with
+    | none => simp [hp] at hcv
+    | some d0 =>
+      simp only [hp] at hcv hd
+      cases hv : versionOf d0 with
+      | none => simp [hv] at hcv
+      | some cur' =>
+        simp only [hv] at hcv
+        split at hcv
+        · simp at hcv
+        · rename_i hrange
+          simp at hcv hrange
+          obtain ⟨rfl, rfl⟩ := hcv
+          -- the decoded document is a map (a null document is the empty map)
+          have hobj : ∃ es, versionOf (.obj es) = some cur' ∧
+              ∀ t, migrate o (some d0) t = migrate o (some (.obj es)) t := by
+            cases d0 <;> simp [DocLike] at hd
+            · exact ⟨[], by simpa [versionOf, lookupE] using hv, fun t => migrate_null o t⟩
+            · exact ⟨_, hv, fun _ => rfl⟩
+          obtain ⟨es, hves, hmig⟩ := hobj
+          dsimp only
+          by_cases heq : cur' = c.target
+          · have := C13_current_noop o es c.target (heq ▸ hves) (by omega)
+            simp [heq, modelObs, modelOutcomes, hp, hmig, this, Outcome.toRes]
+          · have hne := C13_error_or_upgraded o es c.target cur' hves (by omega)
+            have hbeq : (cur' == c.target) = false := by simp [heq]
+            simp only [hbeq, Bool.false_eq_true, if_false]
+            simp only [modelObs, modelOutcomes, hp, hmig]
+            cases hm : migrate o (some (.obj es)) c.target <;> simp [Outcome.toRes]
+            exact hne hm
+
+/-! ### The partial-run clause fails on an integral float -/
+
+/-- Oracles of the witness: `86400.0` is written back as `86400`. -/
+def floatOracles : Oracles :=
+  { fmtDays := fun _ => some [], fmtHours := fun _ => some [], addrOK := fun _ => none,
+    addrPort := fun _ _ => none, quic := fun _ => none, ufPattern := [],
+    rt := fun _ _ => some (.int 86400) }
+
+/-- `schema_version: 5`, `dhcp: {lease_duration: 86400.0}` -/
+def floatDoc : YVal :=
+  .obj [(kSchemaVersion, .int 5), (kDhcp, .obj [(kLeaseDuration, .opaque 1 [])])]
+
+/-- **Counterexample to independence from partial runs** (model and code agree on
+it): in one run the upgrade to 29 fails at step 7 ("unexpected type float64"),
+after a partial run to 6 it succeeds. -/
+theorem C13_counterexample_path_float :
+    migrate floatOracles (some floatDoc) 29 = .err .type 7 ∧
+    ∃ d, splitRun floatOracles (some floatDoc) 29 6 = (2, .up d) := by
+  refine ⟨rfl, _, rfl⟩
+
+/-! ### Obligations over the facts regenerated from the Go source (translator tie)
+
+`AGH/Gen/C13Facts.lean` is rewritten from `internal/configmigrate` on every run;
+the statements below are re-checked against what the code says now. -/
+
+/-- The step table of `upgradeConfigSchema` is complete and in order:
+`upgrades[i]` is `migrateTo<i+1>` for `i = 0 … LastSchemaVersion-1`, and
+`LastSchemaVersion` is the model's. -/
+theorem C13_gen_step_table :
+    Gen.C13.lastSchemaVersion = lastSchemaVersion ∧
+    Gen.C13.stepTable = (List.range Gen.C13.lastSchemaVersion).map (fun i => (i, i + 1)) := by
+  decide +kernel
+
+/-- Every `migrateTo<N>` writes the stamp exactly once, as its first statement,
+with the value `N`; no other function assigns it; and no `moveVal`, `moveSameVal`
+or `delete` names that key. -/
+theorem C13_gen_stamps :
+    Gen.C13.stamps = (List.range Gen.C13.lastSchemaVersion).map (fun i => (i + 1, 0, i + 1)) ∧
+    (∀ a ∈ Gen.C13.accesses, a.2.1 ≠ 0 → a.2.2.2.1 ≠ kSchemaVersion ∧ a.2.2.2.2 ≠ kSchemaVersion) ∧
+    (∀ d ∈ Gen.C13.deletes, d.2 ≠ kSchemaVersion) := by
+  decide +kernel
+
+/-- Every typed read uses a type a decoded YAML value can have (`int`, `string`,
+`bool`, `yobj`, `yarr`, `any`, or the helper's own type parameter): no step
+depends on a Go-typed value left in the map by an earlier step. -/
+theorem C13_gen_reads_generic : ∀ a ∈ Gen.C13.accesses, a.2.2.1 ≤ 5 ∨ a.2.2.1 = 7 := by
+  decide +kernel
+
+/-- The reads, moves, deletes and key lists of the Go source are exactly the
+ones the model was written against. -/
+theorem C13_gen_accesses :
+    Gen.C13.accesses = accessSig ∧ Gen.C13.deletes = deleteSig ∧ Gen.C13.strLists = strListSig := by
+  decide +kernel
+
+/-- The signature's `errors.Join(moveVal…)` rows are the move lists the model executes. -/
+theorem C13_sig_moves :
+    (accessSig.filter (fun a => a.1 == 7 && a.2.1 == 2)).map (fun a => (a.2.2.1, a.2.2.2.1)) =
+      v7Moves.map (fun m => ((match m.1 with | .int => 0 | .str => 1 | .bool => 2 | .obj => 3 | .arr => 4 | .any => 5), m.2.1)) ∧
+    (accessSig.filter (fun a => a.1 == 15 && a.2.1 == 1)).map (fun a => (a.2.2.1, a.2.2.2.1, a.2.2.2.2)) =
+      v15Moves.map (fun m => ((match m.1 with | .int => 0 | .str => 1 | .bool => 2 | .obj => 3 | .arr => 4 | .any => 5), m.2.1, m.2.2)) ∧
+    (accessSig.filter (fun a => a.1 == 24 && a.2.1 == 1)).map (fun a => (a.2.2.1, a.2.2.2.1, a.2.2.2.2)) =
+      v24Moves.map (fun m => ((match m.1 with | .int => 0 | .str => 1 | .bool => 2 | .obj => 3 | .arr => 4 | .any => 5), m.2.1, m.2.2)) ∧
+    (accessSig.filter (fun a => a.1 == 26 && a.2.1 == 2)).map (fun a => (a.2.2.1, a.2.2.2.1)) =
+      v26Moves.map (fun m => ((match m.1 with | .int => 0 | .str => 1 | .bool => 2 | .obj => 3 | .arr => 4 | .any => 5), m.2.1)) := by
+  decide +kernel
+
+/-- Every syntactic panic site of the package (map write, index and slice
+expression, unchecked type assertion, `panic` call, integer division) is under
+a guard the extractor recognised. -/
+theorem C13_gen_panic_sites_guarded : ∀ s ∈ Gen.C13.panicSites, s.2.2.1 ≠ 0 := by
+  decide +kernel
+
+/-- The two repairs the no-panic theorem rests on are present in the source:
+`fieldVal` reports a null object as absent, `Migrate` replaces a nil document. -/
+theorem C13_gen_repairs_present :
+    Gen.C13.fieldValNullObjAbsent = true ∧ Gen.C13.migrateNilDocGuard = true := by
+  decide
+
+/-! ### Non-vacuity -/
+
+/-- A version-11 file with a null `dns` section (the former nil-map panic): upgraded, stamped 29. -/
+example : ∃ d, migrate ⟨fun _ => some [], fun _ => some [], fun _ => none, fun _ _ => none, fun _ => none, [],
+      fun _ _ => none⟩ (some (.obj [(kSchemaVersion, .int 11), (kDns, .null)])) 29 = .up d := by
+  exact ⟨_, rfl⟩
+
+/-- `DocLike` and `versionOf` hypotheses are satisfiable together with a real upgrade. -/
+example : DocLike (some (.obj [(kSchemaVersion, .int 28)])) ∧
+    versionOf (.obj [(kSchemaVersion, .int 28)]) = some 28 := ⟨trivial, by decide⟩
 
 end AGH.C13
